@@ -179,6 +179,16 @@ class PersLoader:
         return Stub(self.w, "o", k)
 
 
+def _importable_names(module, name):
+    """can `from <module> import <name>` be written in Python at all?"""
+    import keyword
+    try:
+        ok = lambda x: x.isidentifier() and not keyword.iskeyword(x)  # noqa: E731
+        return ok(name) and all(ok(part) for part in module.split("."))
+    except Exception:
+        return False
+
+
 class RefUnpickler(pickle._Unpickler):
     """CPython's pure-Python unpickler with inert find_class / persistent_load and a per-opcode hook."""
 
@@ -190,6 +200,8 @@ class RefUnpickler(pickle._Unpickler):
 
     def find_class(self, module, name):
         self.world.events.append(("resolve", module, name))
+        if not _importable_names(module, name):
+            self.world.flags.add("non-identifier-global")
         return self.world.global_stub(module, name)
 
     def persistent_load(self, pid):
@@ -582,6 +594,12 @@ def real_py_eval(data):
         return "SKIP"                # cyclic / very deep AST: no finite print-out
     except Exception:
         return "RENDER-ERR"
+    try:
+        ast.parse(src)
+    except SyntaxError:
+        return "SKIP"                # the decompiled text is not Python (finding D19): nothing to evaluate
+    except Exception:
+        return "SKIP"
     rv, w, err = exec_decompiled(src)
     if err:
         return "SKIP" if err == "RecursionError" else "ERR"
